@@ -88,6 +88,9 @@ class Agent:
                     rec = [self.seq, event, a0]
                     if event == "open":
                         rec += [_s(args[1]) if len(args) > 1 else None, args[2] if len(args) > 2 and isinstance(args[2], int) else None]
+                    elif event == "subprocess.Popen":
+                        # (executable, args, cwd, env): a relative executable is relative to cwd
+                        rec += [_s(args[2]) if len(args) > 2 else None]
                     elif len(args) > 1:
                         rec += [_s(args[1])]
                     rec.append(1 if mut else 0)
